@@ -94,7 +94,8 @@ for ls in range(0, 5):
 BLK_REAL = ["table/block_builder.c", "util/buffer.c", "util/array.c", "util/comparator.c", "util/strutil.c"]
 BLK_UW = dict(VARINT_UW)
 BLK_UW.update({"vp_lcp.0": 5, "vp_ref_bytewise.0": 5, "vp_ref_block_decode.0": 5, "vp_ref_block_decode.1": 5,
-               "ldb_realloc.0": 8, "ldb_realloc.1": 40, "memcpy.0": 5})
+               "memcpy.0": 5})
+KITX = ["vp_nondet.c", "vp_mem.c", "vp_alloc_c16.c"]
 
 
 def klens_ok(ks):
@@ -103,9 +104,11 @@ def klens_ok(ks):
 
 
 import itertools
-BLK_QUICK = {0: [()], 1: [(0,), (1,), (3,)],
-             2: [(0, 1), (1, 1), (1, 2), (2, 1), (3, 3), (2, 3), (3, 2)],
-             3: [(1, 2, 3), (3, 3, 3), (0, 1, 2), (3, 2, 1), (2, 3, 2), (1, 1, 1)]}
+BLK_QUICK = {(0, 1, 0): [()],
+             (1, 1, 0): [(3,)],
+             (2, 1, 0): [(1, 2), (3, 3)], (2, 2, 0): [(1, 2), (3, 3), (2, 1), (0, 1)],
+             (3, 1, 0): [(1, 2, 3)], (3, 2, 0): [(3, 3, 3), (2, 3, 2)], (3, 3, 0): [(3, 3, 3), (1, 2, 3)],
+             (3, 2, 2): [(3, 3, 3)], (3, 3, 2): [(1, 2, 3)]}
 
 
 def blk_defs(mode, n, r, pre, ks, vs):
@@ -131,15 +134,143 @@ for n in range(0, 4):
                 for pre in (0, 2):
                     if (r > n and r > 1 and n < 2) or (n == 0 and (pre or vs[0] == 0)):
                         continue
-                    quick = ks in BLK_QUICK[n] and vs == (1, 0, 1) and (pre == 0 or ks in ((3, 3, 3), (1, 2, 3), (2, 1)))
+                    quick = ks in BLK_QUICK.get((n, r, pre), []) and vs == (1, 0, 1)
                     nm = blk_name(n, r, pre, ks, vs)
                     if nm in BLK_SEEN:
                         continue
                     BLK_SEEN.add(nm)
-                    add("a.blockgen-" + nm, "C16/block.c", real=BLK_REAL,
-                        defs=blk_defs(0, n, r, pre, ks, vs), unwind=40, unwindset=BLK_UW,
+                    add("a.blockgen-" + nm, "C16/block.c", real=BLK_REAL, kit=KITX,
+                        defs=blk_defs(0, n, r, pre, ks, vs), unwind=40, unwindset=BLK_UW, cost=40 * n + 10 * r,
                         tier="quick" if quick else "thorough",
                         functions=["ldb_blockgen_init", "ldb_blockgen_add", "ldb_blockgen_finish", "ldb_blockgen_reset",
                                    "ldb_blockgen_size_estimate"],
                         desc="built block parses with the reference LevelDB block reader to exactly the added entries; restart array, shared-prefix lengths, size estimate",
                         bounds="%d entries, key lengths %s (symbolic bytes, strictly increasing), value lengths %s, restart interval %d, %d entries before a reset" % (n, ks, vs[:n], r, pre))
+
+BLKIT_REAL = BLK_REAL + ["table/iterator.c"]
+BLKIT_UW = dict(BLK_UW)
+BLKIT_UW.update({"memcmp.0": 5, "ldb_blockiter_seek.0": 4, "ldb_blockiter_seek.1": 6, "parse_next_key.0": 5})
+for (n, r, ks, tl, tier) in ((0, 1, (), 1, "quick"), (1, 1, (2,), 2, "quick"), (2, 1, (1, 2), 2, "quick"), (2, 2, (3, 3), 3, "quick"),
+                             (3, 1, (1, 2, 3), 3, "quick"), (3, 2, (2, 3, 2), 2, "quick"), (3, 3, (3, 3, 3), 3, "quick"),
+                             (3, 2, (3, 3, 3), 3, "thorough"), (3, 1, (3, 3, 3), 3, "thorough"), (3, 2, (1, 2, 3), 1, "thorough"),
+                             (3, 3, (1, 2, 3), 0, "thorough"), (3, 2, (0, 1, 2), 2, "thorough"), (2, 2, (2, 1), 3, "thorough")):
+    d = blk_defs(1, n, r, 0, ks, (1, 0, 1))
+    d["VP_TL"] = tl
+    add("a.blockiter-%s-T%d" % (blk_name(n, r, 0, ks, (1, 0, 1)), tl), "C16/block.c", real=BLKIT_REAL, kit=KITX,
+        include_real=["table/block.c"], defs=d, unwind=40, unwindset=BLKIT_UW, tier=tier, cost=50 * n + 10 * r,
+        restrict_fp=[FP % ("do_compare", 1, "slice_compare")],
+        functions=["ldb_block_init", "ldb_blockiter_init", "ldb_blockiter_first", "ldb_blockiter_next", "ldb_blockiter_seek",
+                   "parse_next_key", "decode_entry", "ldb_blockgen_add", "ldb_blockgen_finish"],
+        desc="lcdb's block iterator over the built block: forward scan yields the added entries in order; seek(target) lands on the first entry >= target (reference bytewise order), invalid past the end",
+        bounds="%d entries, key lengths %s, restart interval %d, symbolic target of %d bytes" % (n, ks, r, tl))
+
+# ---------------------------------------------------------------- f. bloom filter
+def bloom_obl(name, mode, n, bpk, ks, abshash, tier="quick", fl=None):
+    d = {"VP_MODE": mode, "VP_N": n, "VP_BPK": bpk}
+    for i, k in enumerate(ks):
+        d["VP_K%d" % i] = k
+    if fl is not None:
+        d["VP_FL"] = fl
+    real = ["util/bloom.c", "util/buffer.c", "util/strutil.c"]
+    if abshash:
+        d["VP_ABSHASH"] = 1
+    else:
+        real.append("util/hash.c")
+    if mode == 0:
+        fps = [FP % ("harness", 1, "bloom_build"), FP % ("harness", 2, "bloom_match")]
+        if n == 0:
+            fps.append(FP % ("harness", 3, "bloom_match"))
+        desc = "bloom filter built by the real build function: length, k byte, dst prefix untouched; NO FALSE NEGATIVE: every added key matches"
+    elif mode == 1:
+        fps = [FP % ("harness", 1, "bloom_match")]
+        desc = "bloom match on an arbitrary filter: memory safe; < 2 bytes never matches; reserved k > 30 and k == 0 match"
+    else:
+        real.append("dbformat.c")
+        fps = [FP % ("harness", 1, "ldb_ifp_build"), FP % ("harness", 2, "ldb_ifp_match"), FP % ("harness", 3, "bloom_match"),
+               FP % ("ldb_ifp_build", 1, "bloom_build"), FP % ("ldb_ifp_match", 1, "bloom_match")]
+        desc = "internal filter policy strips exactly the 8-byte tag in build and match: added user keys match under any tag, and the user policy matches the bare user key"
+    add(name, "C16/bloom.c", real=real, defs=d, unwind=34, unwindset=({"memset.0": 16, "memcpy.0": 12} if abshash else {"memset.0": 16, "memcpy.0": 12, "ldb_hash.0": 4}),
+        restrict_fp=fps, tier=tier, timeout=(300 if tier == "quick" else 1800), sat=(None if abshash and bpk < 30 else "cadical"),
+        functions=["ldb_bloom_init", "bloom_build", "bloom_add", "bloom_match", "bloom_hash"] +
+                  (["ldb_hash"] if not abshash else []) + (["ldb_ifp_init", "ldb_ifp_build", "ldb_ifp_match"] if mode == 2 else []),
+        desc=desc + (" (hash: uninterpreted deterministic function, i.e. for every hash)" if abshash else " (real ldb_hash)"),
+        bounds="%d keys of lengths %s (symbolic bytes), bits_per_key %d%s" % (n, tuple(ks[:max(n, 1)]), bpk, (", filter %d arbitrary bytes" % fl) if fl is not None else ""))
+
+
+for bpk in (1, 10, 20):
+    for (n, ks) in ((0, ()), (1, (2,)), (2, (1, 3)), (3, (0, 2, 3))):
+        bloom_obl("f.bloom-abshash-N%d-B%d" % (n, bpk), 0, n, bpk, ks, True)
+    bloom_obl("f.bloom-realhash-N1-B%d" % bpk, 0, 1, bpk, (2,), False)
+    bloom_obl("f.bloom-realhash-N2-B%d" % bpk, 0, 2, bpk, (1, 3), False, tier="thorough")
+bloom_obl("f.bloom-realhash-N3-B10", 0, 3, 10, (2, 5, 3), False, tier="thorough")
+# moduli that are not a power of two (n * bits_per_key > 64)
+bloom_obl("f.bloom-abshash-N3-B30", 0, 3, 30, (1, 2, 3), True, tier="thorough")   # 96 bits, k = 20
+bloom_obl("f.bloom-abshash-N1-B65", 0, 1, 65, (2,), True, tier="thorough")        # 72 bits, k = 30 (clamped)
+bloom_obl("f.bloom-abshash-N2-B33", 0, 2, 33, (1, 2), True, tier="thorough")      # 72 bits, k = 22
+bloom_obl("f.bloom-realhash-N3-B30-long", 0, 3, 30, (4, 7, 8), False, tier="thorough")
+for fl in (0, 1, 2, 5, 10):
+    bloom_obl("f.bloom-match-arbitrary-F%d" % fl, 1, 1, 10, (3,), True, fl=fl)
+bloom_obl("f.ifp-strip-N2-B10", 2, 2, 10, (0, 2), True)
+bloom_obl("f.ifp-strip-N3-B10-realhash", 2, 3, 10, (1, 2, 3), False, tier="thorough")
+
+# ---------------------------------------------------------------- e. filter block builder -> reader
+FB_REAL = ["table/filter_block.c", "util/buffer.c", "util/array.c", "util/strutil.c"]
+FB_FUNCS = ["ldb_filtergen_init", "ldb_filtergen_start_block", "ldb_filtergen_add_key", "ldb_filtergen_generate",
+            "ldb_filtergen_finish", "ldb_filter_init", "ldb_filter_matches"]
+FB_DESC = ("filter block builder->reader with an abstract consistent policy: every key added to the block at an offset matches "
+           "at that offset; block parses per the LevelDB filter-block format (per-2KiB filters, offset array, array offset, "
+           "base-lg 11) with filter i == policy output for range i; arbitrary probe == reference lookup")
+for (cs, offs, kl, tier) in (((1,), (0,), 2, "quick"), ((2,), (2048,), 1, "quick"), ((1,), (8191,), 1, "quick"),
+                             ((1, 1), (0, 2047), 2, "quick"), ((1, 1), (0, 2048), 2, "quick"), ((2, 1), (2047, 4096), 1, "quick"),
+                             ((0, 2), (0, 6143), 1, "quick"), ((2, 0), (0, 4095), 1, "quick"),
+                             ((1, 1, 1), (0, 2048, 4096), 1, "quick"), ((1, 1, 1), (0, 100, 6144), 1, "quick"),
+                             ((2, 2, 2), (0, 2047, 2048), 2, "thorough"), ((1, 0, 2), (2048, 4096, 8191), 2, "thorough"),
+                             ((2, 1, 2), (4095, 4096, 4097), 3, "thorough"), ((0, 0, 1), (0, 2048, 6144), 3, "thorough"),
+                             ((2, 2), (1, 8191), 3, "thorough"), ((2, 2, 1), (0, 0, 0), 2, "thorough")):
+    nb = len(cs)
+    d = {"VP_NB": nb, "VP_KL": kl, "VP_SLAB": 160}
+    for i, c in enumerate(cs):
+        d["VP_C%d" % i] = c
+        d["VP_O%d" % i] = offs[i]
+    add("e.filterblock-C%s-O%s-KL%d" % ("".join(map(str, cs)), "_".join(map(str, offs)), kl), "C16/filter_block.c",
+        real=FB_REAL, kit=KITX, defs=d, unwind=9, tier=tier, cost=60 * nb,
+        restrict_fp=[FP % ("ldb_filtergen_generate", 1, "vp_pol_build"), FP % ("ldb_filter_matches", 1, "vp_pol_match")],
+        functions=FB_FUNCS, desc=FB_DESC,
+        bounds="%d blocks at offsets %s (real 2 KiB base), keys per block %s of %d symbolic bytes, symbolic probe key and probe offset < 10240" % (nb, offs, cs, kl))
+# symbolic block offsets
+for (cs, kl, tier, to) in (((1,), 1, "quick", 300), ((2,), 2, "thorough", 900), ((1, 1), 2, "thorough", 1800), ((0, 2), 2, "thorough", 1800),
+                           ((1, 1, 1), 1, "thorough", 3000)):
+    nb = len(cs)
+    d = {"VP_NB": nb, "VP_KL": kl, "VP_SLAB": 160}
+    for i, c in enumerate(cs):
+        d["VP_C%d" % i] = c
+    add("e.filterblock-symoff-C%s-KL%d" % ("".join(map(str, cs)), kl), "C16/filter_block.c", real=FB_REAL, kit=KITX,
+        defs=d, unwind=9, tier=tier, timeout=to, cost=200 * nb,
+        restrict_fp=[FP % ("ldb_filtergen_generate", 1, "vp_pol_build"), FP % ("ldb_filter_matches", 1, "vp_pol_match")],
+        functions=FB_FUNCS, desc=FB_DESC,
+        bounds="%d blocks at SYMBOLIC non-decreasing offsets < 8192 (real 2 KiB base), keys per block %s of %d symbolic bytes, symbolic probe key/offset" % (nb, cs, kl))
+
+# ---------------------------------------------------------------- g. snappy
+for (n, tier, to) in ((0, "quick", 300), (1, "quick", 300), (5, "quick", 300), (16, "quick", 300), (17, "quick", 300),
+                      (18, "quick", 300), (20, "thorough", 1800), (24, "thorough", 3000), (28, "thorough", 3000)):
+    m = max(n - 15, 0)
+    uw = {"memset.0": 514, "memcpy.0": n + 2, "vp_fill.0": n + 2,
+          "encode_block.0": 4, "encode_block.1": m + 2, "encode_block.2": n + 1, "encode_block.3": m // 4 + 3,
+          "encode_block.4": m + 2, "emit_copy.0": 2, "ldb_snappy_encode.0": 1,
+          "decode_blocks.0": n + 4, "decode_blocks.1": n + 1,
+          "vp_ref_snappy_decode.0": 5, "vp_ref_snappy_decode.1": n + 1, "vp_ref_snappy_decode.2": n + 1,
+          "vp_ref_snappy_decode.3": n + 4, "ldb_varint32_read.0": 6, "vp_ref_varint_get.0": 6,
+          "harness.0": n + 1, "harness.1": n + 1}
+    add("g.snappy-roundtrip-N%d" % n, "C16/snappy.c", real=["util/snappy.c"], kit=["vp_nondet.c", "vp_mem.c"],
+        defs={"VP_MODE": 0, "VP_N": n}, unwind=n + 4, unwindset=uw, tier=tier, timeout=to, cost=20 * n,
+        functions=["snappy_encode_size", "snappy_encode", "encode_block", "emit_literal", "emit_copy", "snappy_decode_size",
+                   "snappy_decode", "decode_blocks"],
+        desc="snappy: encode_size == 32+n+n/6, encode stays inside it (exact-size output object), decode_size == n, decode(encode(x)) == x, independent reference Snappy decoder reads x back",
+        bounds="x = %d symbolic bytes%s" % (n, " (>= 17: the hash-table matcher encode_block runs)" if n >= 17 else " (< 17: literal-only path)"))
+for (n, z, tier) in ((3, 1, "quick"), (6, 4, "quick"), (5, 8, "quick"), (8, 6, "quick"), (10, 8, "thorough"), (12, 10, "thorough"), (9, 16, "thorough")):
+    add("g.snappy-decode-arbitrary-N%d-Z%d" % (n, z), "C16/snappy.c", real=["util/snappy.c"], kit=["vp_nondet.c", "vp_mem.c"],
+        defs={"VP_MODE": 1, "VP_N": n, "VP_Z": z}, unwind=max(n, z) + 3, unwind_is_violation=True,
+        tier=tier, timeout=600, cost=10 * n,
+        functions=["snappy_decode_size", "snappy_decode", "decode_blocks"],
+        desc="snappy_decode on arbitrary bytes (preamble == output size, exact-size output object): memory safe, terminates, accepts iff the reference Snappy decoder accepts, same bytes",
+        bounds="%d arbitrary input bytes declaring %d output bytes" % (n, z))
